@@ -538,8 +538,8 @@ fn fwriter_op<'a>(ws: &mut Vec<Writer<'a, ()>>, op: &OpS, cx: &mut Cx) -> String
                 }
                 Ok(Err(e)) => {
                     res = format!("err:{}", io_class(&e));
-                    if tot <= t.cap - t.len {
-                        cx.hit("C04", format!("C04:overflow:{}:spurious-error", k), format!("write of {} failed with {} available", tot, t.cap - t.len));
+                    if tot <= t.cap.saturating_sub(t.len) {
+                        cx.hit("C04", format!("C04:overflow:{}:spurious-error", k), format!("write of {} failed with {} available", tot, t.cap.saturating_sub(t.len)));
                     }
                 }
                 Ok(Ok(n)) => {
@@ -629,11 +629,11 @@ fn fwriter_op<'a>(ws: &mut Vec<Writer<'a, ()>>, op: &OpS, cx: &mut Cx) -> String
                 }
                 other = format!(",{},{}", o.available_bytes(), o.bytes_written());
                 let (c1, c2) = match &t.content {
-                    Some(c) if t.buffered || t.len == 0 => (Some(c[..l1].to_vec()), Some(c[std::cmp::min(op.n, c.len())..].to_vec())),
+                    Some(c) if (t.buffered || t.len == 0) && l1 <= c.len() => (Some(c[..l1].to_vec()), Some(c[std::cmp::min(op.n, c.len())..].to_vec())),
                     _ => (None, None),
                 };
                 cx.ft[op.h] = FTrack { buffered: true, len: l1, cap: op.n, content: c1 };
-                cx.ft.push(FTrack { buffered: true, len: l2, cap: t.cap - op.n, content: c2 });
+                cx.ft.push(FTrack { buffered: true, len: l2, cap: t.cap.saturating_sub(op.n), content: c2 });
                 ws.push(o);
             }
         },
@@ -1354,7 +1354,7 @@ fn replay_line(line: &str, sock: (RawFd, RawFd), out: &mut Out) {
 fn main() {
     let a = args();
     let mut out = Out::new(a.get("out").map(|s| s.as_str()).unwrap_or("/verif/.work/xport/out"));
-    std::panic::set_hook(Box::new(|_| {}));
+    if std::env::var("XPORT_TRACE").is_err() { std::panic::set_hook(Box::new(|_| {})); }
     let sock = socketpair();
     if let Some(f) = a.get("cases") {
         for line in std::fs::read_to_string(f).unwrap().lines() {
